@@ -23,6 +23,10 @@ func init() {
 			"ExecutionEngine.Execute reaches planning only through the success edges of normalization (when needed), then of ValidateForSchema (err == nil ∧ Valid), and reaches the resolver only when planning reported no error; ValidateForSchema validates with DefaultOperationValidator and the validator reports Invalid whenever the report has errors. " +
 			"It does not decide accept ⇔ spec-valid for all documents (that is the rules' own logic).",
 		Mutants: []Mutant{
+			{Name: "the subscription root rule does not look into inline fragments (reverts part of the F69 fix)", File: "v2/pkg/astvalidation/operation_rule_subscription_single_root_field.go", Rule: "C04-R12", Key: "subscription-root-fields/every-selection-kind",
+				Old: "\t\tcase ast.SelectionKindInlineFragment:\n\t\t\tif !operation.InlineFragments[selection.Ref].HasSelections {\n\t\t\t\tcontinue\n\t\t\t}\n\t\t\tnestedFields, nestedIntrospection := s.rootFields(operation, operation.InlineFragments[selection.Ref].SelectionSet, depth+1)\n\t\t\tfields += nestedFields\n\t\t\tintrospection = introspection || nestedIntrospection\n", New: ""},
+			{Name: "a lone introspection field is accepted as subscription root (reverts part of the F69 fix)", File: "v2/pkg/astvalidation/operation_rule_subscription_single_root_field.go", Rule: "C04-R12", Key: "subscription-root-fields/introspection-tested",
+				Old: "\t\t\tif bytes.HasPrefix(operation.FieldNameBytes(selection.Ref), []byte(\"__\")) {\n\t\t\t\tintrospection = true\n\t\t\t}\n", New: ""},
 			{Name: "arguments are compared position by position (reverts part of the F59 fix)", File: "v2/pkg/ast/ast_argument.go", Rule: "C04-R11", Key: "Document.ArgumentSetsAreEquals/unordered-elements-paired-by-name",
 				Old: "\tfor _, leftArgument := range left {\n\t\trightArgument, ok := d.argumentByName(right, d.ArgumentNameBytes(leftArgument))\n\t\tif !ok || ", New: "\tfor i, leftArgument := range left {\n\t\trightArgument, ok := right[i], true\n\t\tif !d.ArgumentsAreEqual(leftArgument, rightArgument) || !ok || "},
 			{Name: "input object fields are compared position by position (reverts part of the F59 fix)", File: "v2/pkg/ast/ast_object_field.go", Rule: "C04-R11", Key: "Document.ObjectValuesAreEqual/unordered-elements-paired-by-name",
@@ -71,6 +75,7 @@ func runC04(r *fw.Run) {
 	defer c04DefaultRelaxationOnlyOutermost(r)
 	defer c04CountedMatchingIsOneToOne(r)
 	defer c04UnorderedElementsPairedByName(r)
+	defer c04SubscriptionRootFieldsSeenThroughFragments(r)
 	p := r.Prog
 	pk := p.Pkg("astvalidation")
 	if pk == nil {
@@ -833,4 +838,86 @@ func c04UnorderedElementsPairedByName(r *fw.Run) {
 			fi.Name()+" compares element i of one "+kind+" list with element i of the other ("+positional+"): the same arguments / input object fields written in another order count as different, and field merging rejects a valid operation (f(a: 1, b: 2) next to f(b: 2, a: 1))")
 	}
 	r.Expect("C04-R11", "list equalities over arguments / input object fields", n, 2)
+}
+
+// c04SubscriptionRootFieldsSeenThroughFragments (R12): "a subscription has exactly one root field, and it is not an
+// introspection field" is a statement about the fields of the operation's selection set wherever they are written —
+// directly, inside an inline fragment (normalization does not flatten one that carries a directive) or behind a fragment
+// spread. In the visitor of the rule constructor SubscriptionSingleRootField the selections are therefore dispatched over
+// ast.SelectionKind with an arm for every kind, reached by recursion for the two fragment kinds, and the name of a root
+// field is tested for the introspection prefix.
+func c04SubscriptionRootFieldsSeenThroughFragments(r *fw.Run) {
+	p := r.Prog
+	r.Rule("C04-R12", "the subscription single-root-field rule dispatches the selections of the root selection set over every ast.SelectionKind (fragments are descended into) and tests root field names for the introspection prefix")
+	ctor := p.Func("astvalidation", "SubscriptionSingleRootField")
+	if ctor == nil {
+		r.Error("C04-R12: rule constructor SubscriptionSingleRootField not found")
+		return
+	}
+	// the visitor type the constructor registers
+	cinfo := ctor.Info()
+	var vt string
+	fw.WalkAll(ctor.Decl.Body, func(nd ast.Node) bool {
+		if cl, ok := nd.(*ast.CompositeLit); ok {
+			if n, isNamed := cinfo.TypeOf(cl).(*types.Named); isNamed && n.Obj().Pkg() == ctor.Obj.Pkg() {
+				vt = n.Obj().Name()
+			}
+		}
+		return true
+	})
+	kindT := p.Named("ast", "SelectionKind")
+	if vt == "" || kindT == nil {
+		r.Error("C04-R12: visitor type of SubscriptionSingleRootField / ast.SelectionKind not found")
+		return
+	}
+	want := []string{}
+	for _, c := range fw.ConstNames(kindT.Obj().Pkg(), kindT) {
+		if c != "SelectionKindUnknown" {
+			want = append(want, c)
+		}
+	}
+	covered := map[string]bool{}
+	recursive, prefix := false, false
+	for _, fi := range p.Funcs("astvalidation") {
+		if !strings.HasPrefix(fi.Name(), vt+".") {
+			continue
+		}
+		info := fi.Info()
+		for _, sw := range fw.ConstSwitches(fi, kindT) {
+			for k := range sw.Covered {
+				covered[k] = true
+			}
+			// the fragment arms descend: a call of a method of the visitor inside the switch
+			fw.WalkAll(sw.Stmt, func(nd ast.Node) bool {
+				if c, ok := nd.(*ast.CallExpr); ok {
+					if callee := p.FuncOf(fw.Callee(info, c)); callee != nil && strings.HasPrefix(callee.Name(), vt+".") {
+						recursive = true
+					}
+				}
+				return true
+			})
+		}
+		fw.WalkAll(fi.Decl.Body, func(nd ast.Node) bool {
+			c, ok := nd.(*ast.CallExpr)
+			if !ok || len(c.Args) != 2 {
+				return true
+			}
+			if fn := fw.Callee(info, c); fn == nil || fn.Name() != "HasPrefix" {
+				return true
+			}
+			arg := ast.Unparen(c.Args[1])
+			if conv, isConv := arg.(*ast.CallExpr); isConv && len(conv.Args) == 1 {
+				arg = conv.Args[0] // []byte("__")
+			}
+			if v, isConst := fw.ConstVal(info, arg); isConst && strings.Trim(v, "\"") == "__" {
+				prefix = true
+			}
+			return true
+		})
+	}
+	missing := fw.MissingFrom(covered, want)
+	r.Check(len(missing) == 0 && recursive, "C04-R12", "subscription-root-fields/every-selection-kind", p.Pos(ctor.Decl.Pos()), "the visitor of SubscriptionSingleRootField has an arm for every ast.SelectionKind and descends into fragments",
+		"the root fields of a subscription are counted without looking at selections of kind ["+strings.Join(missing, ",")+"] (or without descending): `subscription { ... @d { s1 s2 } }` — an inline fragment with a directive is not flattened by normalization — is admitted with two root fields")
+	r.Check(prefix, "C04-R12", "subscription-root-fields/introspection-tested", p.Pos(ctor.Decl.Pos()), "the visitor of SubscriptionSingleRootField tests root field names for the introspection prefix",
+		"no root field name is tested for the prefix __: `subscription { __typename }` is admitted although the single root field of a subscription must not be an introspection field")
 }
